@@ -393,6 +393,22 @@ let () =
                    | AOk (v, rest) -> Printf.sprintf "ok %s rest=%d" (show_val v) (List.length rest)
                    | ANotEnough -> "err NotEnoughData"
                    | APanic s -> "panic " ^ str s)
+               | "arbty", [ t; h ] -> (
+                   let u = bytes_of_hex h in
+                   let r =
+                     match t with
+                     | "ctap1::register::Request" -> arb_ctap1_register u
+                     | "ctap1::authenticate::Request" ->
+                         arb_ctap1_authenticate [ cl "CheckOnly"; cl "EnforceUserPresenceAndSign"; cl "DontEnforceUserPresenceAndSign" ] u
+                     | _ -> arb_named env (cl t) u
+                   in
+                   match r with
+                   | AOk (v, rest) -> Printf.sprintf "ok %s rest=%d wt=%d" (show_val v) (List.length rest)
+                       (match t with
+                        | "ctap1::register::Request" | "ctap1::authenticate::Request" -> 1
+                        | _ -> if wt env type_fuel (TNamed (cl t)) (canon_val env type_fuel (TNamed (cl t)) v) then 1 else 0)
+                   | ANotEnough -> "err NotEnoughData"
+                   | APanic s -> "panic " ^ str s)
                | "optab", [ b ] ->
                    let z = z_of_hex b in
                    let o = op_of_u8 tb z in
